@@ -120,6 +120,7 @@ pub struct Access<'w, 's>
     r2: ReactResMut<'w, R2>,
     w1: Reactor<'w, W1>,
     w2: Reactor<'w, W2>,
+    despawner: Res<'w, AutoDespawner>,
 }
 
 /// Kept out of `Access`: the entity world reactor's own system already holds this resource through `EntityLocal`.
@@ -310,7 +311,7 @@ fn issue(op: &Op, r: i64, i: usize, c: &mut Commands, acc: Option<&mut Access>, 
     let mut ret = json!(0);
     let mut skipped = false;
     // ops that reference a system which has not been spawned (a one-off slot) are skipped
-    let need_sys = match op { Op::Run(s) | Op::SysEv(s, _) | Op::DespSys(s) | Op::Reg(_, s, _, _) => Some(*s), _ => None };
+    let need_sys = match op { Op::Run(s) | Op::SysEv(s, _) | Op::SysEvSig(s, _, _) | Op::DespSys(s) | Op::Reg(_, s, _, _) => Some(*s), _ => None };
     if let Some(s) = need_sys { if sys_entity(s).is_none() { skipped = true; } }
     if let Op::Revoke(k) = op { if !with_state(|st| st.tokens.contains_key(k)) { skipped = true; } }
     if skipped
@@ -323,7 +324,13 @@ fn issue(op: &Op, r: i64, i: usize, c: &mut Commands, acc: Option<&mut Access>, 
     match op
     {
         Op::Run(s) => { c.queue(SystemCommand(sys_entity(*s).unwrap())); }
-        Op::SysEv(s, p) => { c.send_system_event(SystemCommand(sys_entity(*s).unwrap()), P1(*p)); }
+        Op::SysEv(s, p) => { c.send_system_event(SystemCommand(sys_entity(*s).unwrap()), P1(*p, None)); }
+        Op::SysEvSig(s, p, e) =>
+        {
+            let acc = acc.expect("signal payload op in exclusive system");
+            let sig = acc.despawner.prepare(ent_entity(*e));
+            c.send_system_event(SystemCommand(sys_entity(*s).unwrap()), P1(*p, Some(sig)));
+        }
         Op::Bc(t, p) => { if *t == 1 { c.react().broadcast(B1(*p)); } else { c.react().broadcast(B2(*p)); } }
         Op::EEv(e, t, p) =>
         {
@@ -464,6 +471,18 @@ fn driver_system(In((step, ops)): In<(i64, Vec<Op>)>, mut acc: Access, mut ew: E
     }
 }
 
+thread_local! { static FRAME_OPS: RefCell<Option<(i64, Vec<Op>)>> = const { RefCell::new(None) }; }
+
+/// Plain Bevy system in `Update`: issues the ops of the current frame step (if any).
+fn frame_system(mut acc: Access, mut ew: EwAccess, mut c: Commands)
+{
+    let Some((step, ops)) = FRAME_OPS.with(|f| f.borrow_mut().take()) else { return; };
+    for (i, op) in ops.iter().enumerate()
+    {
+        issue(op, -step, i + 1, &mut c, Some(&mut acc), Some(&mut ew));
+    }
+}
+
 fn quiesce(world: &mut World, step: usize) -> Value
 {
     let snap = bevy_cobweb::verif::snapshot(world);
@@ -515,6 +534,7 @@ pub fn run_program(cfg: &Config, steps: &mut dyn Iterator<Item = Step>, source: 
 
     let mut app = App::new();
     app.add_plugins(ReactPlugin);
+    app.add_systems(Update, frame_system);
     app.insert_react_resource(R1(0));
     app.insert_react_resource(R2(0));
 
@@ -565,7 +585,6 @@ pub fn run_program(cfg: &Config, steps: &mut dyn Iterator<Item = Step>, source: 
     emit(json!({"t":"cfg","nsys":nsys,"nonce":cfg.nonce,"nent":cfg.nent,"nworld":cfg.nworld,"neworld":cfg.neworld,
         "kinds":cfg.kinds}));
     let mut panicked = false;
-    let world = app.world_mut();
     let mut n = 0usize;
     while let Some(step) = steps.next()
     {
@@ -574,15 +593,15 @@ pub fn run_program(cfg: &Config, steps: &mut dyn Iterator<Item = Step>, source: 
         let res = std::panic::catch_unwind(std::panic::AssertUnwindSafe(|| {
             match &step
             {
-                Step::Ops(ops) => { world.syscall((n as i64, ops.clone()), driver_system); }
-                Step::Gc => { garbage_collect_entities(world); }
-                Step::Poll => { schedule_removal_and_despawn_reactors(world); }
-                Step::Clear =>
+                Step::Ops(ops) => { app.world_mut().syscall((n as i64, ops.clone()), driver_system); }
+                Step::Gc => { garbage_collect_entities(app.world_mut()); }
+                Step::Poll => { schedule_removal_and_despawn_reactors(app.world_mut()); }
+                // a real frame: the plugin's `Last` schedule runs GC and then the poll, `App::update` ends with clear_trackers
+                Step::Clear => { app.update(); }
+                Step::Frame(ops) =>
                 {
-                    // the tail of `App::update`: the `Last` schedule (GC, then the poll), then `World::clear_trackers`
-                    garbage_collect_entities(world);
-                    schedule_removal_and_despawn_reactors(world);
-                    world.clear_trackers();
+                    FRAME_OPS.with(|f| *f.borrow_mut() = Some((n as i64, ops.clone())));
+                    app.update();
                 }
             }
         }));
@@ -593,7 +612,7 @@ pub fn run_program(cfg: &Config, steps: &mut dyn Iterator<Item = Step>, source: 
             panicked = true;
             break;
         }
-        let q = quiesce(world, n);
+        let q = quiesce(app.world_mut(), n);
         emit(q);
     }
 
